@@ -12,7 +12,7 @@ for s in $SEEDS; do
     *) chk=$id ;;
   esac
   [ -f harness/$(echo $chk | tr A-Z a-z).py ] || { echo "$s SKIP (no check for $chk)"; continue; }
-  out=$(tools/try_seed.sh /verif/seeded/$s/patch.diff $chk 2>&1)
+  out=$(TAIL=100000 tools/try_seed.sh /verif/seeded/$s/patch.diff $chk 2>&1)
   if echo "$out" | grep -q "^VIOLATION property=$chk"; then echo "$s CAUGHT by $chk: $(echo "$out" | grep -m1 'label=' | sed 's/inputs=.*//' | cut -c1-140)";
   elif echo "$out" | grep -q "patch does not apply"; then echo "$s PATCH-DOES-NOT-APPLY";
   else echo "$s MISSED by $chk: $(echo "$out" | grep '^C[0-9]* tier\|HARNESS' | cut -c1-160 | head -2)"; fi
